@@ -1,5 +1,38 @@
-(* placeholder while the proofs are being developed *)
-From Coq Require Import ZArith.
-From Stk Require Import T.Model T.Spec.
-Theorem C10_keys_exact : True. Proof. exact I. Qed.
+(** Property C10: timer keys are exact; stale and Default keys are inert.
+    Only property theorems live here; each is closed by [exact] of a lemma of coq/T. *)
+From Coq Require Import ZArith List Bool.
+From Stk Require Import Lib.U Gen.SrcTimers T.Model T.Spec T.Inv T.Rel T.Main T.Witness.
+Import ListNotations.
+Local Open Scope Z_scope.
+
+(** For every good history the C10 monitor of T/Spec.v is true at every operation: timer_del,
+    timer_max_del/upd/active and timer_min_del/upd/active answer true exactly when the timer
+    created by the operation that issued the key is still pending (so a key answers false forever
+    after its timer fired or was deleted, whatever reuse its slot has seen, and the Default key
+    always answers false), and no callback of a successfully deleted timer is ever reported. *)
+Theorem C10_keys_exact : forall ops, good ops -> v10 (mon_all (model_history ops)) = true.
+Proof. exact C10_all. Qed.
+Check C10_keys_exact : forall ops, good ops -> v10 (mon_all (model_history ops)) = true.
 Print Assumptions C10_keys_exact.
+
+(** the excluded classes are necessary: with the generation of a slot brought next to its 32-bit
+    wrap (known finding F2, class GenWrap; the poke stands for 2^32 - 2 add/delete cycles) a stale
+    Max key reports a newer Min timer as active *)
+Theorem F2_refuted :
+  Z.of_nat (length f2_ops) < HMAX /\ Forall op_bounds f2_ops /\ NoDup (ops_cbs f2_ops) /\
+  wellkeyed (model_history f2_ops) = true /\ uses_poke f2_ops = true /\
+  v10 (mon_all (model_history f2_ops)) = false.
+Proof. exact F2_witness. Qed.
+(** with the fixed-timer sequence at its 31-bit wrap (known finding F3, class SeqWrap) a stale
+    FixedTimerKey deletes a newer timer *)
+Theorem F3_alias_refuted :
+  Z.of_nat (length f3a_ops) < HMAX /\ Forall op_bounds f3a_ops /\ NoDup (ops_cbs f3a_ops) /\
+  wellkeyed (model_history f3a_ops) = true /\ uses_poke f3a_ops = true /\
+  v10 (mon_all (model_history f3a_ops)) = false.
+Proof. exact F3_alias_witness. Qed.
+Print Assumptions F2_refuted.
+
+Example C10_good_satisfiable : good good_ops /\ band_free good_ops.
+Proof. exact good_ops_good. Qed.
+Example C10_good_verdict : v_all (mon_all (model_history good_ops)) = true.
+Proof. exact good_ops_verdict. Qed.
